@@ -377,6 +377,12 @@ type workerResult struct {
 	err  error
 }
 
+// library functions (methods as Type.name) seen in the function table of the instrumented copy -> entered by any run
+var (
+	fnMu    sync.Mutex
+	fnReach = map[string]bool{}
+)
+
 func runWorkers(dir string, scn scenSpec, prop, tier string, master uint64, budget time.Duration, workers int, nruns int) ([]runRecord, error) {
 	opts := map[string]string{"property": prop}
 	for k, v := range scn.Opts {
@@ -420,6 +426,25 @@ func runWorkers(dir string, scn scenSpec, prop, tier string, master uint64, budg
 				return
 			}
 			results[i] = workerResult{recs, rerr}
+			if b, err := os.ReadFile(outPath + ".fn"); err == nil {
+				var fr struct {
+					Total []string `json:"total"`
+					Hit   []string `json:"hit"`
+				}
+				if json.Unmarshal(b, &fr) == nil {
+					fnMu.Lock()
+					for _, n := range fr.Total {
+						if _, ok := fnReach[n]; !ok {
+							fnReach[n] = false
+						}
+					}
+					for _, n := range fr.Hit {
+						fnReach[n] = true
+					}
+					fnMu.Unlock()
+				}
+				os.Remove(outPath + ".fn")
+			}
 			os.Remove(outPath)
 		}(i)
 	}
@@ -810,6 +835,20 @@ func cmdCheck(prop string, args []string) int {
 		"planned_runs_completed":       complete,
 		"build_s":                      buildS,
 		"exhaustive":                   false,
+	}
+	if len(fnReach) > 0 {
+		var miss []string
+		hit := 0
+		for n, h := range fnReach {
+			if h {
+				hit++
+			} else {
+				miss = append(miss, n)
+			}
+		}
+		sort.Strings(miss)
+		cov["library_functions"] = map[string]interface{}{"total": len(fnReach), "entered_by_some_run": hit, "never_entered": miss,
+			"note": "functions and methods of the non-test files of the package (instrumented copy); entered = called at least once in some run of this check"}
 	}
 	if variants > 0 {
 		cov["fault_sweep"] = map[string]interface{}{"base_runs": bases, "fault_variants": variants,
